@@ -1,0 +1,110 @@
+//! Observation and driver helpers for harnesses: detached cells whose mailbox can be read
+//! synchronously, snapshots of the supervision tree, reset of process-wide state.
+#![allow(missing_docs)]
+
+use crate::actor::actor_cell::ActorPortSet;
+use crate::actor::actor_properties::MuxedMessage;
+use crate::actor::messages::StopMessage;
+use crate::message::BoxedMessage;
+use crate::ActorCell;
+use crate::ActorId;
+use crate::ActorStatus;
+use crate::Signal;
+use crate::SpawnErr;
+use crate::SupervisionEvent;
+
+/// The receive ends of a cell that has no actor task attached
+pub struct DetachedPorts(pub(crate) ActorPortSet);
+
+/// One item of the message port
+pub enum Mail {
+    /// the drain marker
+    Drain,
+    /// a user message
+    Message(BoxedMessage),
+}
+
+impl DetachedPorts {
+    pub fn try_recv_message(&mut self) -> Option<Mail> {
+        match self.0.message_rx.try_recv() {
+            Ok(MuxedMessage::Drain) => Some(Mail::Drain),
+            Ok(MuxedMessage::Message(m)) => Some(Mail::Message(m)),
+            Err(_) => None,
+        }
+    }
+    pub fn try_recv_signal(&mut self) -> Option<Signal> {
+        self.0.signal_rx.try_recv().ok()
+    }
+    pub fn try_recv_stop(&mut self) -> Option<StopMessage> {
+        self.0.stop_rx.try_recv().ok()
+    }
+    pub fn try_recv_supervision(&mut self) -> Option<SupervisionEvent> {
+        self.0.supervisor_rx.try_recv().ok()
+    }
+}
+
+/// A real [ActorCell] (registered like any other) without an actor task
+pub fn detached<TActor: crate::Actor>(
+    name: Option<String>,
+) -> Result<(ActorCell, DetachedPorts), SpawnErr> {
+    let (c, p) = ActorCell::new::<TActor>(name)?;
+    Ok((c, DetachedPorts(p)))
+}
+
+/// `ActorCell::set_status` (runs the registry / pg cleanup and the stop notification)
+pub fn set_status(cell: &ActorCell, s: ActorStatus) -> ActorStatus {
+    cell.set_status(s)
+}
+
+/// `ActorCell::terminate` (kill + take children, transitively)
+pub fn terminate(cell: &ActorCell) {
+    cell.terminate()
+}
+
+/// The exit path every actor task runs at its end (`ActorLifecycleGuard::finish`)
+pub fn run_exit_path(cell: &ActorCell, event: Option<SupervisionEvent>) {
+    let mut guard = crate::actor::ActorLifecycleGuard::new(cell.clone());
+    guard.mark_running();
+    match event {
+        Some(e) => guard.finish(e),
+        None => drop(guard),
+    }
+}
+
+/// `ActorCell::try_link`
+pub fn try_link(child: &ActorCell, supervisor: &ActorCell) -> bool {
+    child.try_link(supervisor.clone())
+}
+
+/// Raw value of the message-admission word
+pub fn admission_word(cell: &ActorCell) -> usize {
+    cell.inner
+        .message_admission_raw()
+}
+
+/// Plain-data view of one node of the supervision tree
+#[derive(Debug, Clone, PartialEq, Eq)]
+pub struct TreeSnapshot {
+    /// this actor's supervisor
+    pub supervisor: Option<ActorId>,
+    /// this actor's children, `None` once the child set is closed
+    pub children: Option<Vec<ActorId>>,
+    /// a lock was held by someone (only possible when called off a quiescent point)
+    pub locked: bool,
+}
+
+pub fn tree_snapshot(cell: &ActorCell) -> TreeSnapshot {
+    cell.inner.tree.verif_snapshot()
+}
+
+/// Reset process-wide state between executions. Returns a description of anything that was
+/// still registered (names, pids, pid listeners, pg entries); the tables are cleared regardless.
+pub fn reset_globals() -> Vec<String> {
+    let mut residue = Vec::new();
+    residue.extend(crate::registry::verif_reset());
+    #[cfg(feature = "cluster")]
+    residue.extend(crate::registry::pid_registry::verif_reset());
+    residue.extend(crate::pg::verif_reset());
+    crate::actor::actor_id::verif_reset_ids();
+    residue
+}
